@@ -121,6 +121,12 @@ pub struct Target {
     pub name: Option<String>,
     /// is `name` a syntactically valid database name?
     pub well_formed: bool,
+    /// the name is not a valid database name but IS one plain path segment: the router hands it to
+    /// the database route, so the authorization gate answers - with the same uniform rejection a
+    /// missing well-formed name gets (seeded change C14-3). Names that contain an encoded slash or
+    /// are dot segments may be answered by the router itself and are only checked for independence
+    /// of the server's state.
+    pub routed_segment: bool,
     /// all bodies, or only the reduced set
     pub full: bool,
 }
@@ -133,7 +139,7 @@ fn pct_first(name: &str) -> String {
 pub fn targets(m: &Model) -> Vec<Target> {
     let a = m.name(RA);
     let b = m.name(RB);
-    let mut v = vec![Target { label: "root".into(), verb: "POST", path: "/".into(), kind: TKind::Root, name: None, well_formed: true, full: true }];
+    let mut v = vec![Target { label: "root".into(), verb: "POST", path: "/".into(), kind: TKind::Root, name: None, well_formed: true, routed_segment: false, full: true }];
     for role in [RA, RB, RC, RD, RP, RM] {
         let n = m.name(role);
         v.push(Target {
@@ -143,6 +149,7 @@ pub fn targets(m: &Model) -> Vec<Target> {
             kind: TKind::Db,
             name: Some(n.to_string()),
             well_formed: true,
+            routed_segment: false,
             full: true,
         });
     }
@@ -153,6 +160,7 @@ pub fn targets(m: &Model) -> Vec<Target> {
         kind: TKind::Db,
         name: Some(name.to_string()),
         well_formed: wf,
+        routed_segment: !wf && !name.contains('/') && name != "." && name != "..",
         full,
     };
     v.push(db("db:a%enc", pct_first(a), a, true, true));
@@ -173,6 +181,7 @@ pub fn targets(m: &Model) -> Vec<Target> {
         kind: TKind::RouterOwn,
         name: None,
         well_formed: false,
+        routed_segment: false,
         full: false,
     };
     v.push(own("router:invalid-utf8", "POST", "/%FF%FE".into()));
@@ -186,7 +195,7 @@ pub fn targets(m: &Model) -> Vec<Target> {
     v.push(own("router:DELETE-b", "DELETE", format!("/{b}")));
     v.push(own("router:PATCH-root", "PATCH", "/".into()));
     v.push(own("router:HEAD-root", "HEAD", "/".into()));
-    v.push(Target { label: "GET /".into(), verb: "GET", path: "/".into(), kind: TKind::Health, name: None, well_formed: true, full: false });
+    v.push(Target { label: "GET /".into(), verb: "GET", path: "/".into(), kind: TKind::Health, name: None, well_formed: true, routed_segment: false, full: false });
     v
 }
 
